@@ -74,7 +74,7 @@ else:
 
 
 def scenario(B, p):
-    verts = make_vertices(B, 3)
+    verts = make_vertices(B, 3, ["Vertex", "NamedVertex", "Vertex"] if p["rfunc"] == "none" else None)
     links = make_links(B, p["classes"])
     n = len(links)
     symbolic_assoc_state(B, verts, links, n, n, two_ended_wellformed=True)
